@@ -203,6 +203,23 @@ Fixpoint insert_ref (r : pref) (l : list pref) : list pref :=
   end.
 Definition sort_refs (l : list pref) : list pref := fold_right insert_ref [] l.
 
+(** parse.go, positional mode: sort.SliceStable by source location *)
+Definition ref_loc (r : pref) : Z := loc_of (pr_ref r).
+Fixpoint insert_ref_loc (r : pref) (l : list pref) : list pref :=
+  match l with
+  | [] => [r]
+  | x :: rest => if (ref_loc r <=? ref_loc x)%Z then r :: x :: rest else x :: insert_ref_loc r rest
+  end.
+Definition sort_refs_loc (l : list pref) : list pref := fold_right insert_ref_loc [] l.
+(** ... each occurrence replaced by the first reference (walk order) to its number *)
+Definition first_ref (firsts : list pref) (r : pref) : pref :=
+  match filter (fun f => Z.eqb (ref_number f) (ref_number r)) firsts with
+  | f :: _ => f
+  | [] => r
+  end.
+Definition positional_refs (refs0 : list pref) : list pref :=
+  map (first_ref (unique_refs [] refs0)) (sort_refs_loc refs0).
+
 (** * validate *)
 Definition is_param_func (n : node) : bool :=
   is_kind "FuncCall" n && negb (is_nil (kid "Func" n))
